@@ -710,6 +710,21 @@ def stepStreamEndTau (s : AState) : Option AState :=
     else none
   | _ => none
 
+/-- Nothing about this actor can move any more: the loop is parked on an open, empty mailbox
+    (and a silent stream) or gone, every timer task has ended, no pending operation can return. -/
+def quiet (w : Wiring) (s : AState) : Bool :=
+  (match s.phase with
+   | .done _ => true
+   | .idle =>
+     s.chan.queue.isEmpty && s.sendersAlive w && (!s.cfg.stream || (s.avail.isEmpty && !s.streamEnded))
+   | _ => false)
+  && s.timers.all (fun t => t.st == .ended)
+  && s.ops.all (fun r => (s.retExpect r).isNone)
+
+def stepQuiescent (w : Wiring) (s : AState) (pend : List Nat) : Option AState :=
+  if s.quiet w && pend.all (fun o => (s.findOp o).isSome) && s.ops.all (fun r => pend.contains r.o)
+  then some s else none
+
 end AState
 
 open AState in
@@ -744,7 +759,7 @@ def step (w : Wiring) (s : AState) : Label → Option AState
   | .streamReady k => s.stepStreamReady k
   | .streamEnd => s.stepStreamEnd
   | .taskDone => s.stepTaskDone
-  | .quiescent _ => some s
+  | .quiescent pend => s.stepQuiescent w pend
   | .tDeq => s.stepDeq
   | .tChanEnd => s.stepChanEnd w
   | .tStreamEnd => s.stepStreamEndTau
